@@ -1055,3 +1055,55 @@ def check_cp_tolerance(case):
 SUBCHECKS.append(
     SubCheck("cp_tolerance", check_cp_tolerance, _cptol_case, lambda c: f"{c['side']},atol={c['atol']},rtol={c['rtol']}", quick=2000, thorough=30000, shards=4)
 )
+
+
+# ------------------------------------------------------------------------------------------
+# tolerance semantics of the trace-preservation verdicts (added after seeded change C06-t2 - is_quantum_channel forwarding
+# atol but not rtol to is_trace_preserving - was missed: all generated maps were checked at the default tolerances)
+# sum K^dagger K = (1 + delta) I is compared with I by numpy.allclose: the diagonal tolerance is atol + rtol
+# ------------------------------------------------------------------------------------------
+@st.composite
+def _tptol_case(draw):
+    return {
+        "d": draw(st.integers(2, 3)),
+        "r": draw(st.integers(1, 3)),
+        "seed": draw(gen.SEED),
+        "cplx": draw(st.booleans()),
+        "tols": draw(st.sampled_from([None, [1e-9, 1e-9], [1e-1, 1e-8], [1e-3, 1e-6], [1e-7, 1e-5]])),
+        "side": draw(st.sampled_from(["violates", "within"])),
+        "factor": draw(st.sampled_from([10.0, 30.0])),
+        "fn": draw(st.sampled_from(["is_trace_preserving", "is_quantum_channel"])),
+        "form": draw(st.sampled_from(["kraus", "choi"])),
+        "sign": draw(st.sampled_from([1, -1])),
+    }
+
+
+def check_tp_tolerance(case):
+    from toqito.channel_props import is_quantum_channel, is_trace_preserving
+
+    d, r = case["d"], case["r"]
+    rtol, atol = case["tols"] if case["tols"] is not None else (1e-5, 1e-8)
+    band = rtol + atol
+    delta = band * case["factor"] if case["side"] == "violates" else band / case["factor"]
+    delta *= case["sign"]
+    v = gen.rand_isometry(case["seed"], d * r, d, real=not case["cplx"])
+    ks = [np.sqrt(1 + delta) * np.array(v[i * d : (i + 1) * d, :]) for i in range(r)]
+    comp = sum(k.conj().T @ k for k in ks)
+    if abs(float(np.max(np.abs(comp - (1 + delta) * np.eye(d))))) > band / 1000:
+        raise Inconclusive("construction-inexact")
+    rep = ks if case["form"] == "kraus" else ref.choi_of_pairs([(k, k) for k in ks], d)
+    if case["form"] == "choi":
+        rep = (rep + rep.conj().T) / 2
+    kw = {} if case["tols"] is None else {"rtol": rtol, "atol": atol}
+    fn = is_trace_preserving if case["fn"] == "is_trace_preserving" else is_quantum_channel
+    got = bool(fn(rep, **kw))
+    want = case["side"] == "within"
+    req(
+        got == want,
+        f"{case['fn']}(<{case['form']}>, {kw or 'default tolerances'}) returned {got} for a completely positive map with sum K^dagger K = (1 {delta:+.1e}) I; "
+        f"the diagonal tolerance is rtol + atol = {band:.1e}, so the definition gives {want}",
+        "tp:tolerance-semantics",
+    )
+
+
+SUBCHECKS.append(SubCheck("tp_tolerance", check_tp_tolerance, _tptol_case, lambda c: f"{c['fn']},{c['form']},{c['side']},tols={c['tols']}", quick=2000, thorough=30000, shards=4))
